@@ -15,6 +15,30 @@
 #include <sys/stat.h>
 #include "rebound.h"
 
+// ---- write-order recorder -------------------------------------------------------------------------------------
+// The library writes an archive through stdio.  This executable exports its own fopen / fwrite / fclose (linked with
+// -rdynamic, so the calls made inside librebound resolve here); for the stream opened on the reference archive the
+// (offset, length) of every fwrite is recorded in call order.  Crash images are built along that order: "the process
+// died after c bytes had been written" means the first c bytes of that sequence, wherever in the file they went.
+#include <dlfcn.h>
+static FILE* rec_stream = NULL; static char rec_name[1024] = ""; static long rec_plan[4096][2]; static int rec_n = 0;
+FILE* fopen(const char* fn, const char* mode){
+    static FILE* (*real)(const char*, const char*) = NULL; if (!real) real = dlsym(RTLD_NEXT,"fopen");
+    FILE* f = real(fn,mode);
+    if (f && rec_name[0] && strcmp(fn,rec_name)==0 && (mode[0]=='w' || strchr(mode,'+'))){ rec_stream = f; }
+    return f;
+}
+size_t fwrite(const void* p, size_t sz, size_t n, FILE* f){
+    static size_t (*real)(const void*, size_t, size_t, FILE*) = NULL; if (!real) real = dlsym(RTLD_NEXT,"fwrite");
+    if (f==rec_stream && f && sz*n>0 && rec_n<4096){ rec_plan[rec_n][0] = ftell(f); rec_plan[rec_n][1] = (long)(sz*n); rec_n++; }
+    return real(p,sz,n,f);
+}
+int fclose(FILE* f){
+    static int (*real)(FILE*) = NULL; if (!real) real = dlsym(RTLD_NEXT,"fclose");
+    if (f==rec_stream) rec_stream = NULL;
+    return real(f);
+}
+
 static uint64_t fnv(uint64_t h, const void* p, size_t n){
     const unsigned char* c = p;
     for (size_t i=0;i<n;i++){ h ^= c[i]; h *= 1099511628211ULL; }
@@ -97,7 +121,11 @@ int main(int argc, char** argv){
         printf("{\"digests\":[");
         for (int b=0;b<K;b++){
             if (b) ops(r,b,steps,addAt);
+            strcpy(rec_name, fn); rec_n = 0;
             reb_simulation_save_to_file(r, fn);
+            rec_name[0] = 0;
+            { char pf[1024]; snprintf(pf,1024,"%s/plan_%d.txt",dir,b); FILE* po = fopen(pf,"w");
+              for (int q=0;q<rec_n;q++) fprintf(po,"%ld %ld\n",rec_plan[q][0],rec_plan[q][1]); fclose(po); }
             long n; unsigned char* buf = slurp(fn,&n);
             char g[1024]; snprintf(g,1024,"%s/ref_%d.bin",dir,b); spit(g,buf,n); free(buf);
             printf("%s\"%016llx\"", b?",":"", (unsigned long long)digest(r));
@@ -120,15 +148,21 @@ int main(int argc, char** argv){
     long nOld=0, nNew=0; unsigned char *old=NULL, *new_=NULL;
     if (k>0){ snprintf(fn,1024,"%s/ref_%d.bin",dir,k-1); old = slurp(fn,&nOld); }
     snprintf(fn,1024,"%s/ref_%d.bin",dir,k); new_ = slurp(fn,&nNew);
-    long start = k>0 ? nOld-12 : 0;           // the write begins ON the previous trailer
+    long start = k>0 ? nOld-12 : 0;           // (sequential model: the write begins ON the previous trailer)
     long wlen = nNew-start;
+    // the recorded write order of this save
+    long plan[4096][2]; int np = 0;
+    { char pf[1024]; snprintf(pf,1024,"%s/plan_%d.txt",dir,k); FILE* pi = fopen(pf,"r");
+      if (pi){ while (np<4096 && fscanf(pi,"%ld %ld",&plan[np][0],&plan[np][1])==2) np++; fclose(pi); } }
+    if (np==0){ fprintf(stderr,"no write plan for save %d\n",k); return 3; }
+    { long tot = 0; for (int q=0;q<np;q++) tot += plan[q][1]; wlen = tot; }
     char img[1024]; snprintf(img,1024,"%s/img_%d.bin",dir,(int)getpid());
     for (long c=from; c<to && c<=wlen; c+=stride){
-        // image: old file overlaid by the first c bytes of the new region
-        long n = (start+c > nOld) ? start+c : nOld;
-        unsigned char* im = malloc(n+1);
+        // image: old file overlaid by the first c bytes of the recorded write sequence
+        long n = nOld; { long left = c; for (int q=0;q<np && left>0;q++){ long l = plan[q][1]<left?plan[q][1]:left; if (plan[q][0]+l>n) n = plan[q][0]+l; left -= l; } }
+        unsigned char* im = calloc(n+1,1);
         if (nOld) memcpy(im,old,nOld);
-        memcpy(im+start,new_+start,c);
+        { long left = c; for (int q=0;q<np && left>0;q++){ long l = plan[q][1]<left?plan[q][1]:left; memcpy(im+plan[q][0],new_+plan[q][0],l); left -= l; } }
         spit(img,im,n);
         int pfd[2]; pipe(pfd);
         fflush(stdout);
